@@ -173,6 +173,14 @@ func scnCodec(g *Gen, budget int, arg string) {
 				for j := 68; j < 100; j++ {
 					b[j] = []byte{0, 0xff}[g.pick(2)]
 				}
+			} else if g.chance(0.5) && n >= 100 {
+				// the amount slot at a width boundary of the integer types a decoder might go through
+				e := new(big.Int).Lsh(big.NewInt(1), uint([]int{0, 31, 32, 63, 64, 128, 255}[g.pick(7)]))
+				e.Add(e, big.NewInt(int64(g.pick(7)-3)))
+				if e.Sign() < 0 {
+					e.SetInt64(0)
+				}
+				e.FillBytes(b[68:100])
 			}
 			g.emit(Op{Kind: "burn-parse", KV: newKV().set("bz", hx(b))})
 		case 2:
